@@ -598,6 +598,8 @@ type Entry struct {
 	Path string // relative to the snapshot root, slash separated
 	Kind string // d | f | l | ?
 	Size int64
+	Mode uint32 // permission bits
+	Sum  uint64 // content hash of regular files (up to 64 KiB)
 }
 
 func snapshot(root string) []Entry {
@@ -617,11 +619,17 @@ func snapshot(root string) []Entry {
 		case info.Mode().IsRegular():
 			e.Kind = "f"
 			e.Size = info.Size()
+			if e.Size > 0 && e.Size <= 64<<10 {
+				if b, err := os.ReadFile(p); err == nil {
+					e.Sum = hashStr(string(b))
+				}
+			}
 		case info.Mode()&os.ModeSymlink != 0:
 			e.Kind = "l"
 		default:
 			e.Kind = "?"
 		}
+		e.Mode = uint32(info.Mode().Perm())
 		out = append(out, e)
 		return nil
 	})
@@ -632,7 +640,7 @@ func snapshot(root string) []Entry {
 func snapString(es []Entry) string {
 	var sb strings.Builder
 	for _, e := range es {
-		fmt.Fprintf(&sb, "%s:%s:%d\n", e.Kind, e.Path, e.Size)
+		fmt.Fprintf(&sb, "%s:%s:%d\n", e.Kind, e.Path, e.Size) // mode and content hash are compared by the checks that care (C06, C08)
 	}
 	return sb.String()
 }
@@ -654,4 +662,13 @@ func countMut(ops []simfs.OpRec) int {
 		}
 	}
 	return n
+}
+
+// snapStringFull includes permission bits and content hashes.
+func snapStringFull(es []Entry) string {
+	var sb strings.Builder
+	for _, e := range es {
+		fmt.Fprintf(&sb, "%s:%s:%d:%o:%x\n", e.Kind, e.Path, e.Size, e.Mode, e.Sum)
+	}
+	return sb.String()
 }
